@@ -58,8 +58,8 @@ Print Assumptions C08_option_free_is_plain.
    plain Inner that did not *)
 Definition ex_ct : list cls :=
   [ {| c_mixin := true; c_cfgd := Some {| n_on := T; n_od := U; n_ba := U |}; c_cfg := ns_unset; c_sort := false; c_flags := fl_on;
-       c_fields := [({| p_name := "i"; p_alias := None; p_tynull := false; p_trivial := false; p_default := DNo; p_omit := false |}, [1]);
-                    ({| p_name := "j"; p_alias := None; p_tynull := false; p_trivial := false; p_default := DNo; p_omit := false |}, [2]);
+       c_fields := [({| p_name := "i"; p_alias := None; p_ty := TyPlain; p_trivial := false; p_default := DNo; p_omit := false |}, [1]);
+                    ({| p_name := "j"; p_alias := None; p_ty := TyPlain; p_trivial := false; p_default := DNo; p_omit := false |}, [2]);
                     (fld "x", [])] |};
     {| c_mixin := true; c_cfgd := None; c_cfg := ns_unset; c_sort := false; c_flags := fl_on; c_fields := [(fld "a", [])] |};
     {| c_mixin := false; c_cfgd := None; c_cfg := ns_unset; c_sort := false; c_flags := fl_none; c_fields := [(fld "b", [])] |} ]%nat.
